@@ -1498,7 +1498,7 @@ Proof. exact lazy_converse_nonvacuous. Qed.
 (* ==== the BCF FILE: header block + record loop (NV.Bcf.File) ==== *)
 From NV Require Import Text.TextBase Vcf.Values Vcf.Line Vcf.Header Vcf.HeaderProofs Vcf.HdrFrameProofs Vcf.File.
 From NV Require Import Bcf.Ints Bcf.Typed Bcf.Strings Bcf.Genotype Bcf.StringMap Bcf.StringMapProofs Bcf.Record
-  Bcf.RecordTyped Bcf.Bridge Bcf.BridgeProofs Bcf.ColumnProofs Bcf.Lazy Bcf.LazySiteProofs Bcf.LazyEagerProofs Bcf.File Bcf.FileProofs Bcf.FileLazyDomain.
+  Bcf.RecordTyped Bcf.Bridge Bcf.BridgeProofs Bcf.ColumnProofs Bcf.Lazy Bcf.LazySiteProofs Bcf.LazyEagerProofs Bcf.File Bcf.FileProofs Bcf.FileLazyDomain Bcf.FileBytes Bcf.FileBytesFmt.
 
 (* The line reader of the header text (header/vcf_header.rs + read_line): the written lines, each
    followed by LF, then the NUL, are split into exactly those lines, whatever follows the NUL.
@@ -1692,6 +1692,74 @@ Print Assumptions c10_file_class_sound.
 
 (* non-vacuity: the example header below is in the sub-domain *)
 Example c10_no_character_keys_example : hdr_no_chars exf_h = true.
+Proof. vm_compute. reflexivity. Qed.
+
+(* ---- the WRITTEN stream is a list of bytes, from the writer's INPUT (NV.Bcf.FileBytes).
+   file_bytes_ok hd rs (decidable) = the header text Header.write_header produces is bytes
+   (hdr_text_bytes) and every record is sites-only (rec_sites_only: no FORMAT keys, no sample rows)
+   with byte strings (rec_bytes_ok: IDs, REF, ALT, Character/String INFO values and elements) *)
+Theorem c10_record_written_bytes_sites : forall strings contigs hc rlen r b,
+  rec_sites_only r = true -> rec_bytes_ok r = true ->
+  bcf_write strings contigs hc rlen r = Ok b -> byte_list b.
+Proof. exact bcf_write_bytes_sites. Qed.
+Print Assumptions c10_record_written_bytes_sites.
+
+Theorem c10_file_written_bytes : forall h rs bs,
+  file_bytes_ok h rs = true -> bcf_write_file h rs = Ok bs -> byte_list bs.
+Proof. exact bcf_write_file_bytes. Qed.
+Print Assumptions c10_file_written_bytes.
+
+(* what the correspondence check reports per written file (kind bf, field WB) *)
+Theorem c10_written_class_sound : forall h rs o,
+  written_class h rs = (true, o) -> o = None \/ o = Some true.
+Proof. exact written_class_sound. Qed.
+Print Assumptions c10_written_class_sound.
+
+(* c10_file_roundtrip_lazy_no_character_keys_partial WITHOUT its [byte_list bs] premise: every
+   premise is now about the writer's input *)
+Theorem c10_file_roundtrip_lazy_written_no_character_keys : forall hd rs backs bs,
+  header_ok hd -> hdr_defs_ok hd = true -> hdr_vals_framed hd ->
+  hdr_no_chars hd = true ->
+  file_bytes_ok hd rs = true ->
+  (forall s c, maps_of_header hd = Some (s, c) -> Forall2 (file_rec_dom s c (hctx_of_header hd)) rs backs) ->
+  bcf_write_file hd rs = Ok bs ->
+  exists lbacks, bcf_read_file_lazy bs = FOk (hd, (lbacks, EndEof)) /\
+                 Forall2 (same_content (h_v44 (hctx_of_header hd))) lbacks backs.
+Proof. exact file_roundtrip_lazy_written_no_chars. Qed.
+Print Assumptions c10_file_roundtrip_lazy_written_no_character_keys.
+
+(* ---- the same for records WITH FORMAT keys and sample rows (NV.Bcf.FileBytesFmt):
+   rec_bytes_ok_all = rec_bytes_ok and the per-sample Character / String values and array elements
+   are bytes; bytes lemmas for enc_fmt_col (eight kinds), enc_gt_col, the FORMAT block *)
+Theorem c10_record_written_bytes : forall strings contigs hc rlen r b,
+  rec_bytes_ok_all r = true ->
+  bcf_write strings contigs hc rlen r = Ok b -> byte_list b.
+Proof. exact bcf_write_bytes. Qed.
+Print Assumptions c10_record_written_bytes.
+
+Theorem c10_file_written_bytes_all : forall h rs bs,
+  file_bytes_ok_all h rs = true -> bcf_write_file h rs = Ok bs -> byte_list bs.
+Proof. exact bcf_write_file_bytes_all. Qed.
+Print Assumptions c10_file_written_bytes_all.
+
+Theorem c10_written_class_all_sound : forall h rs o,
+  written_class_all h rs = (true, o) -> o = None \/ o = Some true.
+Proof. exact written_class_all_sound. Qed.
+Print Assumptions c10_written_class_all_sound.
+
+Theorem c10_file_roundtrip_lazy_written_no_character_keys_all : forall hd rs backs bs,
+  header_ok hd -> hdr_defs_ok hd = true -> hdr_vals_framed hd ->
+  hdr_no_chars hd = true ->
+  file_bytes_ok_all hd rs = true ->
+  (forall s c, maps_of_header hd = Some (s, c) -> Forall2 (file_rec_dom s c (hctx_of_header hd)) rs backs) ->
+  bcf_write_file hd rs = Ok bs ->
+  exists lbacks, bcf_read_file_lazy bs = FOk (hd, (lbacks, EndEof)) /\
+                 Forall2 (same_content (h_v44 (hctx_of_header hd))) lbacks backs.
+Proof. exact file_roundtrip_lazy_written_no_chars_all. Qed.
+Print Assumptions c10_file_roundtrip_lazy_written_no_character_keys_all.
+
+(* non-vacuity: the example header's text is bytes *)
+Example c10_hdr_text_bytes_example : hdr_text_bytes exf_h = true.
 Proof. vm_compute. reflexivity. Qed.
 
 (* still unproved: that the two premises on the WRITTEN bytes follow from the record domain (every
